@@ -25,11 +25,17 @@ def run_one(pid, tier, repo, seed, jobs=None):
         print(f"ANALYSIS-ERROR property={pid} no check is built for this property")
         return 2
     level = mod.LEVEL
+    chk = None
     try:
         program = Program(repo, jobs=jobs)
         chk = Check(pid, tier, seed, level, program)
-        mod.run(chk, program, tier)
-        if tier == 'thorough' and hasattr(mod, 'witness') and not os.environ.get('N2K_NO_WITNESS'):
+        try:
+            mod.run(chk, program, tier)
+        except AnalysisError as e:
+            # keep what was decided before the analysis gave up: recognised violations stand, the rest is an analysis error
+            chk.errors.append(str(e))
+            return chk.finish(mod.EXPLANATION, mod.ASSUMPTIONS)
+        if tier == 'thorough' and not os.environ.get('N2K_NO_WITNESS'):
             from . import witness
             witness.run(chk, mod, program, pid, seed)
         return chk.finish(mod.EXPLANATION, mod.ASSUMPTIONS)
